@@ -1,0 +1,102 @@
+//go:build verif
+
+// Machine-checked contracts (gowp, see /verif/DESIGN.md). Comment-only file:
+// nothing here is compiled into the package.
+
+package quicstreamheader
+
+// ---- C30: the stream header protocol, layout of what is written and read --------------
+//
+// Streams are the ghost byte sequences of util (one reader rin/rpos/rend, one
+// writer wout/wlen; a Read may deliver any number of the remaining bytes).
+//
+// A head is: 1 byte of data type, the encoder hint as a lengthed field, the
+// marshaled header as a lengthed field.
+//@ func (*baseBroker).writeHead
+//@   prop C30
+//@   requires broker != nil && broker.Writer != nil && broker.Encoder != nil && wlen >= 0
+//@   modifies ghost:wout, ghost:wlen
+//@   ensures [type] r0 == nil ==> wout[old(wlen)] == dataType[0]
+//@   ensures [hint] r0 == nil ==> be64(wout, old(wlen) + 1) == len(broker.Encoder.Hint().Bytes()) && forall(q, 0 <= q && q < len(broker.Encoder.Hint().Bytes()) ==> wout[old(wlen) + 9 + q] == broker.Encoder.Hint().Bytes()[q])
+//@   ensures [header] r0 == nil ==> be64(wout, old(wlen) + 9 + len(broker.Encoder.Hint().Bytes())) == len(fst(broker.Encoder.Marshal(header))) && forall(q, 0 <= q && q < len(fst(broker.Encoder.Marshal(header))) ==> wout[old(wlen) + 17 + len(broker.Encoder.Hint().Bytes()) + q] == fst(broker.Encoder.Marshal(header))[q])
+//@   ensures [total] r0 == nil ==> wlen == old(wlen) + 17 + len(broker.Encoder.Hint().Bytes()) + len(fst(broker.Encoder.Marshal(header)))
+//@   ensures [prefix] forall(q, 0 <= q && q < old(wlen) ==> wout[q] == old(wout)[q])
+
+// A body is: 1 byte of data type (body), 1 byte of body type, for a fixed
+// length body its length as 8 bytes, then the body bytes (copied by io.Copy,
+// outside the verifier).
+//@ package io
+//@ func Copy
+//@   trusted
+//@   modifies ghost:wout, ghost:wlen, ghost:rpos
+//@   ensures forall(q, 0 <= q && q < old(wlen) ==> wout[q] == old(wout)[q])
+//@   ensures wlen >= old(wlen)
+//@ package github.com/spikeekips/mitum/network/quicstream/header
+//@ func (*baseBroker).writeBody
+//@   prop C30
+//@   requires broker != nil && broker.Writer != nil && wlen >= 0
+//@   modifies ghost:wout, ghost:wlen, ghost:rpos
+//@   ensures [local-types] r0 == nil ==> wlen >= old(wlen) + 2 && wout[old(wlen) + 1] == bodyType[0]
+//@   ensures [local-length] r0 == nil && bodyType == FixedLengthBodyType && bodyType != EmptyBodyType ==> wlen >= old(wlen) + 10 && be64(wout, old(wlen) + 2) == bodyLength
+//@   ensures [prefix] forall(q, 0 <= q && q < old(wlen) ==> wout[q] == old(wout)[q])
+
+// reading: every read of a type consumes exactly one byte; a head consumes
+// exactly its two lengthed fields
+//@ func (*baseBroker).readDataType
+//@   prop C30
+//@   requires broker != nil && broker.Reader != nil && 0 <= rpos && rpos <= rend && rend < 4611686018427387904
+//@   modifies ghost:rpos
+//@   ensures [one-byte] r1 == nil ==> rpos == old(rpos) + 1 && r0[0] == byt(rin[old(rpos)])
+//@   ensures rpos >= old(rpos) && rpos <= rend
+
+//@ func (*baseBroker).readBodyType
+//@   prop C30
+//@   requires broker != nil && broker.Reader != nil && 0 <= rpos && rpos <= rend && rend < 4611686018427387904
+//@   modifies ghost:rpos
+//@   ensures [one-byte] r1 == nil ==> rpos == old(rpos) + 1 && r0[0] == byt(rin[old(rpos)])
+//@   ensures [unknown-on-error] r1 != nil ==> r0 == UnknownBodyType
+//@   ensures rpos >= old(rpos) && rpos <= rend
+
+// decoding and encoder lookup: outside the verifier
+//@ package github.com/spikeekips/mitum/util/encoder
+//@ func Decode
+//@   trusted
+//@   modifies *v
+//@ package github.com/spikeekips/mitum/util/hint
+//@ func (*CompatibleSet).FindByString
+//@   trusted
+//@   pure
+//@   ensures r3 == nil && r2 ==> r1 != nil
+//@ package github.com/spikeekips/mitum/util
+//@ func AssertInterfaceValue
+//@   trusted
+//@   pure
+//@ package github.com/spikeekips/mitum/network/quicstream/header
+
+//@ func (*baseBroker).readEncoder
+//@   prop C30
+//@   requires broker != nil && broker.Reader != nil && broker.Encoders != nil && 0 <= rpos && rpos <= rend && rend < 4611686018427387904
+//@   modifies ghost:rpos
+//@   ensures [field] r1 == nil ==> r0 != nil && rpos == old(rpos) + 8 + ite(be64(rin, old(rpos)) < 1, 0, be64(rin, old(rpos)))
+//@   ensures rpos >= old(rpos) && rpos <= rend
+
+// a head that is accepted consumed exactly: the hint field, then the header field
+//@ func (*baseBroker).readHead
+//@   prop C30
+//@   requires broker != nil && broker.Reader != nil && broker.Encoders != nil && 0 <= rpos && rpos <= rend && rend < 4611686018427387904
+//@   modifies ghost:rpos, *
+//@   ensures [layout] r2 == nil ==> r0 != nil && rpos == old(rpos) + 8 + ite(be64(rin, old(rpos)) < 1, 0, be64(rin, old(rpos))) + 8 + ite(be64(rin, old(rpos) + 8 + ite(be64(rin, old(rpos)) < 1, 0, be64(rin, old(rpos)))) < 1, 0, be64(rin, old(rpos) + 8 + ite(be64(rin, old(rpos)) < 1, 0, be64(rin, old(rpos)))))
+//@   ensures [wanted-type] r2 == nil ==> dataType == RequestHeaderDataType || dataType == ResponseHeaderDataType
+
+// a body head: one byte of body type; for a fixed length body 8 more bytes
+// holding the length that is reported
+//@ func (*baseBroker).readBody
+//@   prop C30
+//@   requires broker != nil && broker.Reader != nil && 0 <= rpos && rpos <= rend && rend < 4611686018427387904
+//@   modifies ghost:rpos, *
+// (the type constants are package variables; their distinctness is a stated assumption)
+//@   requires UnknownBodyType != EmptyBodyType && UnknownBodyType != FixedLengthBodyType && UnknownBodyType != StreamBodyType && EmptyBodyType != FixedLengthBodyType && EmptyBodyType != StreamBodyType && FixedLengthBodyType != StreamBodyType
+//@   ensures [type] r4 == nil ==> rpos >= old(rpos) + 1 && r0[0] == byt(rin[old(rpos)])
+//@   ensures [fixed] r4 == nil && r0 == FixedLengthBodyType && r0 != EmptyBodyType ==> r2 != nil && (r1 == be64(rin, old(rpos) + 1) || rpos < old(rpos) + 9)
+//@   ensures [stream] r4 == nil && r0 == StreamBodyType && r0 != EmptyBodyType && r0 != FixedLengthBodyType ==> r2 != nil
+//@   ensures rpos <= rend
